@@ -56,6 +56,9 @@ var verifC14StmtSrc = []string{
 	`set @@datetime_format = @s; set @@wait_timeout = @f + 20; set @@cpu = @i;`,
 	`var @w := @s; @w := @t; select @w, @s;`,
 	`declare c cursor for select a, b from t; open c; var @x, @y; fetch c into @x, @y; close c; dispose cursor c; select @x;`,
+	// table objects with literal arguments, read twice with other text work in between
+	"select b || '-' || a from csv(',', `f.csv`, 'utf8', false); select upper(b) from ltsv(`g.ltsv`, 'UTF8') g; select a from fixed('[1,2]', `h.txt`, 'utf8');",
+	"select a from json_table('rows', `j.json`); select a from jsonl('', `k.jsonl`); select c1 from csv_inline(',', 'p,q', 'utf8', true);",
 }
 
 func VerifC14Setup() {
@@ -188,9 +191,16 @@ func VerifC14Statements() {
 		return rows, err
 	}
 	prog := verifC14Progs[pi]
+	verifFileWrite("f.csv", "a,b\n1,x\n")
+	verifFileWrite("g.ltsv", "a:1\tb:x\n")
+	verifFileWrite("h.txt", "1x\n")
+	verifFileWrite("j.json", "{\"rows\":[{\"a\":\"1\"}]}")
+	verifFileWrite("k.jsonl", "{\"a\":\"1\"}\n")
+	text0 := verifProgText(prog)
 	rows1, err1 := run(prog)
 	verifAssert("statement runs", err1 == nil)
 	verifC14Churn()
+	verifAssert("the statements print as before the first run", verifProgText(prog) == text0)
 	st.unchanged("after the first run")
 	// second run: for programs that declare something, only the last statement is repeated
 	again := prog
@@ -234,8 +244,22 @@ func VerifC14Statements() {
 		}
 	}
 	verifC14Churn()
+	verifAssert("the statements print as before after the second run", verifProgText(prog) == text0)
 	st.unchanged("after the second run")
 	st.tableUnchanged("after the second run", st.b)
 	verifObserve("rows", int64(len(rows1)))
 	verifReach("end")
+}
+
+// verifProgText: the text csvq derives from the syntax trees of the statements that can be printed.
+func verifProgText(prog []parser.Statement) string {
+	out := ""
+	for _, st := range prog {
+		if p, ok := st.(interface{ String() string }); ok {
+			out += p.String() + ";"
+		} else if d, ok := st.(parser.CursorDeclaration); ok {
+			out += d.Query.String() + ";"
+		}
+	}
+	return out
 }
